@@ -57,10 +57,13 @@ def build_xlsx(cells, names, path):
         os.remove(path)
 
 
-def evaluate(model, target):
+def evaluate(model, target, pre=()):
     L = xl.lib()
     try:
-        return xl.to_abs(L.Evaluator(model).evaluate(target))
+        ev = L.Evaluator(model)
+        for p in pre:          # other cells evaluated first by the same evaluator
+            ev.evaluate(p)
+        return xl.to_abs(ev.evaluate(target))
     except BaseException as e:      # noqa
         if isinstance(e, (KeyboardInterrupt, SystemExit)):
             raise
@@ -117,7 +120,7 @@ class Worker:
             for pname, build in paths:
                 try:
                     model = build()
-                    obs = evaluate(model, target)
+                    obs = evaluate(model, target, [addr(*p) for p in case.get('pre', [])])
                 except BaseException as e:      # noqa
                     if isinstance(e, (KeyboardInterrupt, SystemExit)):
                         raise
